@@ -1,6 +1,7 @@
 package drv
 
 import (
+	"fmt"
 	"reflect"
 
 	"github.com/gregoryv/mq"
@@ -261,6 +262,9 @@ func Observe(p mq.Packet) *ref.AP {
 			var wa ref.AP
 			observePublish(&wa, w)
 			a.Will = &ref.Will{QoS: w.QoS(), Retain: w.Retain(), Topic: wa.Topic, Payload: wa.Payload}
+			if wa.PacketID != 0 || w.Duplicate() {
+				a.Will.Extra = fmt.Sprintf("PacketID=%d DUP=%v", wa.PacketID, w.Duplicate())
+			}
 			for _, pr := range wa.Props {
 				// subscription identifiers and topic alias are not will
 				// properties; if a will carries them they show up as such
